@@ -452,23 +452,42 @@ pub mod mpsc {
         })
     }
 
-    impl<T: SeamDescribe> Sender<T> {
+    /// what the event log says about a message: boards by their move descriptor (the messages
+    /// of the search thread), anything else (a second channel some refactor introduced: lines
+    /// from a reader thread, a table handed back ...) by its type, marked `other:`
+    fn describe<T: 'static>(t: &T) -> String {
+        let any = t as &dyn std::any::Any;
+        if let Some(b) = any.downcast_ref::<crate::board::BoardState>() {
+            return b.seam_describe();
+        }
+        if let Some(x) = any.downcast_ref::<String>() {
+            return format!("other:String:{}", x.chars().take(24).collect::<String>());
+        }
+        if let Some(x) = any.downcast_ref::<Option<String>>() {
+            return format!("other:Option<String>:{}", x.as_deref().map(|v| v.chars().take(24).collect::<String>()).unwrap_or_else(|| "None".into()));
+        }
+        format!("other:{}", std::any::type_name::<T>())
+    }
+
+    impl<T: 'static> Sender<T> {
         pub fn send(&self, t: T) -> Result<(), SendError<T>> {
             if in_sim() {
                 // scheduling point: the send happens at this thread's virtual time
                 with_sim(|s| s.before_send());
-                let desc = t.seam_describe();
+                let desc = describe(&t);
                 let r = self.inner.send(t);
                 let n = self.info.sent.fetch_add(1, Ordering::SeqCst);
                 let ok = r.is_ok();
                 with_sim(|s| s.note_send(n, ok, desc));
                 return r;
             }
-            super::CTX.with(|c| {
-                if let super::Ctx::Scripted(s) = &mut *c.borrow_mut() {
-                    s.sends.push(s.queries);
-                }
-            });
+            if (&t as &dyn std::any::Any).is::<crate::board::BoardState>() {
+                super::CTX.with(|c| {
+                    if let super::Ctx::Scripted(s) = &mut *c.borrow_mut() {
+                        s.sends.push(s.queries);
+                    }
+                });
+            }
             self.info.sent.fetch_add(1, Ordering::SeqCst);
             self.inner.send(t)
         }
